@@ -28,6 +28,7 @@ WH_COORDS = ["jacobi", "democraticheliocentric", "whds", "barycentric"]
 
 # ----------------------------------------------------------------------------- dimension map
 DIMS = {}
+PAIRS = {}        # generator name -> coverage report of its covering array
 # cross-cutting dimensions this check considers applicable to C10 (a zero count is a broken obligation)
 DIM_REQUIRED = [
     "janus: gravity basic", "janus: gravity compensated", "janus: gravity none + additional force", "janus: softening != 0", "janus: G != 1",
@@ -40,7 +41,7 @@ DIM_REQUIRED = [
     "janus tie: N_active < N", "janus tie: callbacks", "janus tie: additional force", "janus tie: softening", "janus tie: no snapping step",
     "sym: safe_mode = 0, synchronize only at the turning point", "sym: restore at the turning point", "sym: dt changed by the user mid-run",
     "sym: COM offset + boost (no move_to_com)", "sym: massless test particles", "sym: callbacks pre/post", "sym: additional force, velocity independent",
-    "sym: variational particles with non-zero data", "sym: dt < 0 first", "sym: hyperbolic member", "sym: eccentric member, long steps", "sym: G != 1",
+    "sym: variational particles with non-zero data", "sym: documented recalculation flag set by the user", "sym: dt < 0 first", "sym: hyperbolic member", "sym: eccentric member, long steps", "sym: G != 1",
     "sei: dt changed by the user mid-run", "sei: restore at the turning point", "sei: shear boundary crossed, no self-gravity", "sei: OMEGAZ != OMEGA",
     "kepler primitive: hyperbolic dt<0 bisection", "kepler primitive: elliptic dt<0 quartic",
 ]
@@ -50,7 +51,7 @@ def dim(name, n=1):
     DIMS[name] = DIMS.get(name, 0) + n
 
 
-def reload_sim(R, s, how):
+def reload_sim(R, s, how, reinstall=True):
     """every public restore path that keeps the integrator state: binary file round trip, copy()"""
     if how == "copy":
         s2 = s.copy()
@@ -62,6 +63,10 @@ def reload_sim(R, s, how):
         s2 = R.rb.Simulation(path)
         os.remove(path)
     s2._c10 = s._c10
+    if hasattr(s, "_c10cfg"):
+        s2._c10cfg = s._c10cfg
+        if reinstall:
+            Real.install(s2, asfc(s._c10cfg[0]), s._c10cfg[1], s2._c10)
     return s2
 
 
@@ -203,6 +208,14 @@ class Real:
             s.ri_janus.order, s.ri_janus.scale_pos, s.ri_janus.scale_vel = janus
         st = {"af": 0, "pre": 0, "post": 0, "hb": 0, "probe_checked": 0, "probe_bad": 0, "first_bad": None}
         s._c10 = st
+        s._c10cfg = (fc, janus)
+        self.install(s, fc, janus, st)
+        return s
+
+    @staticmethod
+    def install(s, fc, janus, st):
+        """(re-)install the callbacks of configuration fc on s; function pointers are not part of a saved or copied
+        simulation, so a user re-installs them after a restore — `reload_sim` does the same"""
         k = fc["k"]
         kv = fc.get("kv", 0.0)
         cb = fc["cb"]
@@ -252,7 +265,6 @@ class Real:
                         q.ay += -kv * q.vy
                         q.az += -kv * q.vz
             s.additional_forces = af
-        return s
 
     @staticmethod
     def doubles(s):
@@ -397,18 +409,34 @@ def run(c):
     corr_janus(c, R, exe)
     corr_leapfrog(c, R, exe)
     corr_sei(c, R, exe)
+    corr_saba(c, R, exe)
     corr_laws(c, exe)
     search_janus(c, R)
     search_symmetric(c, R)
     probe_kepler(c, R)
     search_flyby(c, R)
     velocity_dependent(c, R, exe)
+    entry_points(c, R)
     c.cov["dimensions"] = {k: DIMS.get(k, 0) for k in DIM_REQUIRED}
     c.cov["dimensions"].update({k: v for k, v in DIMS.items() if k not in DIM_REQUIRED})
     for k in DIM_REQUIRED:
         if DIMS.get(k, 0) == 0:
             c.broken.append("dimension not covered in this run: " + k)
             c.log("DIMENSION NOT COVERED:", k)
+    # ---- pairwise coverage of the generators' factors
+    tot = {"covered": sum(r["covered"] for r in PAIRS.values()), "total": sum(r["total"] for r in PAIRS.values()),
+           "excluded": sum(r["excluded"] for r in PAIRS.values())}
+    if any("triples_total" in r for r in PAIRS.values()):
+        tot["triples_covered"] = sum(r.get("triples_covered", 0) for r in PAIRS.values())
+        tot["triples_total"] = sum(r.get("triples_total", 0) for r in PAIRS.values())
+    tot["by_generator"] = PAIRS
+    c.cov["pairs"] = tot
+    for name, r in PAIRS.items():
+        c.log("pairs %s: %d/%d covered, %d excluded%s" % (name, r["covered"], r["total"], r["excluded"],
+              (", triples %d/%d" % (r["triples_covered"], r["triples_total"])) if "triples_total" in r else ""))
+        if c.thorough and (r["covered"] < r["total"] or r.get("triples_covered", 0) < r.get("triples_total", 0)):
+            c.broken.append("pairwise coverage incomplete for %s: %d of %d pairs%s; first missing: %s" % (
+                name, r["covered"], r["total"], (", %d of %d triples" % (r["triples_covered"], r["triples_total"])) if "triples_total" in r else "", r["missing"][:3]))
 
 
 # ----------------------------------------------------------------------------- correspondence
@@ -419,25 +447,37 @@ def corr_janus(c, R, exe):
     flag_bad, probe_checked, probe_first = 0, 0, None
     cbcalls = {"pre": 0, "post": 0, "af": 0}
     fch = {}
-    for case in range(ncase):
-        n = rng.randint(2, 8)
-        G, parts = gen_planetary(rng, n) if rng.chance(0.7) else gen_cloud(rng, n)
-        order = [2, 4, 6, 8, 10][case % 5]
-        sp, sv = rng.choice(SCALES), rng.choice(SCALES)
-        if not in_range(parts, sp, sv):
-            sp = sv = 1e-16
-        P = inner_period(G, parts)
-        fc = gen_fc(rng, G, parts, full=(case % 3 != 0))
-        dt = P / rng.choice([15, 40, 100, 300]) * (1 if rng.chance(0.6) else -1)
-        long = case % 8 == 7
-        nf = rng.randint(200, 1000) if long else rng.randint(3, 25)
+    # the model-vs-code runs come from an all-pairs array of the factors the Lean model has a notion of
+    import c10_cover as CV
+    TF = CV.Factors(dict(order=[2, 4, 6, 8, 10], force=["basic", "basic+k"],
+                         roles=["all", "tp0_massless", "tp0_massive", "tp1_massless", "tp1_massive", "single_active", "zero_mass_active"],
+                         cb=["none", "pre", "post", "probe", "pre+post+probe"], soft=["0", ">0"], scales=["equal", "unequal", "coarse"],
+                         system=["planetary", "offset+boost", "cloud", "G=4pi^2"], sign=["+", "-"], snap=["dt=0 step", "none"],
+                         segs=["there+back", "there+back+other dt"], length=["short", "long"]),
+                    [("length", "long", "cb", ["probe", "pre+post+probe"], "cost: a Python callback at every stage"),
+                     ("length", "long", "force", "basic+k", "cost: a Python callback at every stage")])
+    tcases = []
+    tstuck = []
+    while len(tcases) < ncase:
+        a2, st2 = CV.covering_array(TF, rng.fork(), ncand=25)
+        tcases += a2
+        tstuck += st2
+    tcov = CV.Coverage(TF, implied_excluded=tstuck)
+    for case, tf in enumerate(tcases):
+        f = dict(tf, call="steps", turn="plain", evA="none", evB="none", t0="0", ncls="short", nsize="small", name="janus")
+        Pc = build_janus_case(rng, f, 1000)
+        tcov.add(tf)
+        n, G, parts, order, sp, sv, fc = Pc["n"], Pc["G"], Pc["parts"], Pc["order"], Pc["sp"], Pc["sv"], Pc["fc"]
+        dt = inner_period(G, parts) / rng.choice([15, 40, 100, 300]) * (1 if tf["sign"] == "+" else -1)
+        long = tf["length"] == "long"
+        nf = rng.randint(200, 600) if long else rng.randint(3, 25)
         if fc["k"] != 0 or "probe" in fc["cb"]:
             nf = min(nf, 60)          # a Python callback at every stage
         every = 50 if long else 1
         segs = [(0.0, 1), (dt, nf), (-dt, nf)]
-        if rng.chance(0.3):
+        if tf["segs"] != "there+back":
             segs.append((dt * 0.37, 3))
-        if case % 6 == 5:
+        if tf["snap"] == "none":
             segs = segs[1:]      # no snapping step: to_int happens inside the first real step
         lines.append(janus_line(order, sp, sv, fc, every, segs, parts))
         recs, sim, fb = real_janus_records(R, order, sp, sv, fc, every, segs, parts)
@@ -455,6 +495,10 @@ def corr_janus(c, R, exe):
             if cond:
                 dim("janus tie: " + nm)
         fch[str(fc_class(fc)[:3])] = fch.get(str(fc_class(fc)[:3]), 0) + 1
+    rep = tcov.report()
+    rep["excluded_reasons"] = CV.excluded_table(TF)
+    rep["cases"] = len(tcases)
+    PAIRS["janus model-vs-code tie"] = rep
     c.cov["janus_tie_config_histogram(test_particles,testparticle_type,additional_force)"] = fch
     c.cov["janus_tie_callback_calls"] = cbcalls
     c.cov["janus_force_position_probe_checks"] = probe_checked
@@ -765,190 +809,303 @@ def corr_laws(c, exe):
 
 
 # ----------------------------------------------------------------------------- search
-def janus_roundtrip(R, order, sp, sv, fc, parts, dt, nst, mode="steps", again=False, dt2=None, t0=None, name="janus"):
-    """snap to the grid (one dt=0 step), nst steps with dt, `sim.dt = -sim.dt`, nst steps.
-    mode: steps | interleave (harmless calls between chunks: synchronize, energy, angular momentum) |
-    integrate (reb_simulation_integrate without exact finish time, with a heartbeat installed) |
-    save / copy (binary file round trip / copy() in the middle of the forward leg, continue on the restored object) |
-    restore_turn (binary file round trip at the turning point).  dt2: the user changes dt in the middle of the
-    forward leg (the backward leg mirrors it).  Returns dict(i0,d0,i1,i2,d2,i3?,flag_bad,sim)."""
-    if mode == "integrate":
+# ---- factors of the JANUS round-trip generator (explicit, finite; see c10_cover.py)
+EVENTS_J = ["none", "sync", "dt", "save", "copy"]
+JANUS_FACTORS = dict(
+    order=[2, 4, 6, 8, 10],
+    force=["basic", "basic+k", "compensated", "compensated+k", "none+k"],
+    roles=["all", "tp0_massless", "tp0_massive", "tp1_massless", "tp1_massive", "single_active", "zero_mass_active"],
+    cb=["none", "pre", "post", "probe", "pre+post+probe"],
+    call=["steps", "single", "integrate+heartbeat"],
+    turn=["plain", "restore", "copy"],
+    evA=EVENTS_J, evB=EVENTS_J,         # event adjacency: evA after step s, evB after step s+1 of the forward leg
+    sign=["+", "-"],
+    scales=["equal", "unequal", "coarse"],
+    soft=["0", ">0"],
+    system=["planetary", "offset+boost", "cloud", "G=4pi^2"],
+    t0=["0", "huge"],
+    ncls=["short", "medium", "long"],
+    nsize=["small", ">128"],
+    name=["janus", "JANUS"],
+)
+JANUS_EXCLUDED = [
+    ("nsize", ">128", "ncls", ["medium", "long"], "cost: N>128 only with short runs"),
+    ("nsize", ">128", "system", ["planetary", "offset+boost", "G=4pi^2"], "N>128 systems are generated as clouds"),
+    ("cb", ["probe", "pre+post+probe"], "ncls", "long", "cost: a Python callback at every stage"),
+    ("force", ["basic+k", "compensated+k", "none+k"], "ncls", "long", "cost: a Python callback at every stage"),
+    ("system", "cloud", "ncls", "long", "clouds eject particles towards the int64 range"),
+]
+JANUS_TRIPLES = ["order", "force", "roles", "cb", "turn", "evA", "evB", "call"]
+
+
+def build_janus_case(rng, f, nmax):
+    """factor values -> concrete parameters (everything not a factor is drawn at random)"""
+    big = f["nsize"] == ">128"
+    n = rng.randint(129, 160) if big else rng.randint(3, 8)
+    if big or f["system"] == "cloud":
+        G, parts = gen_cloud(rng, n)
+        kind = 2
+    else:
+        G, parts = gen_planetary(rng, n)
+        kind = 0
+        star = parts[0][1:]
+        if f["system"] == "offset+boost":
+            if not any(star):
+                off = [rng.normal() * 3 for _ in range(3)] + [rng.normal() * 0.3 for _ in range(3)]
+                for p in parts:
+                    for k in range(6):
+                        p[1 + k] += off[k]
+        else:
+            for p in parts:                         # star at the origin, at rest
+                for k in range(6):
+                    p[1 + k] -= star[k]
+            if f["system"] == "G=4pi^2":
+                G = 4 * math.pi ** 2
+                for p in parts:
+                    for k in (4, 5, 6):
+                        p[k] *= 2 * math.pi
+    fc = mkfc(G)
+    r = f["roles"]
+    if r.startswith("tp"):
+        fc["nactive"] = rng.randint(2, n - 1)
+        fc["tptype"] = int(r[2])
+        if r.endswith("massless"):
+            for p in parts[fc["nactive"]:]:
+                p[0] = 0.0
+        else:
+            for p in parts[fc["nactive"]:]:
+                p[0] = p[0] or 1e-7
+    elif r == "single_active":
+        fc["nactive"] = 1
+        fc["tptype"] = rng.randint(0, 1)
+    elif r == "zero_mass_active":
+        parts[rng.randint(1, n - 1)][0] = 0.0
+    fc["gravity"] = f["force"].split("+")[0]
+    if f["force"].endswith("+k"):
+        fc["k"] = (rng.loguniform(1e-2, 1.0) if fc["gravity"] == "none" else rng.loguniform(1e-3, 1e-1)) * G
+    fc["cb"] = tuple(x for x in f["cb"].split("+") if x != "none")
+    if f["soft"] != "0":
+        fc["soft"] = rng.loguniform(1e-4, 1e-2)
+    if f["scales"] == "equal":
+        sp = sv = 1e-16
+    elif f["scales"] == "unequal":
+        sp, sv = rng.choice([(1e-16, 1e-15), (1e-15, 1e-16), (1e-14, 1e-16), (2.0 ** -40, 1e-14), (1e-16, 1e-12)])
+    else:
+        sp, sv = rng.choice([(1e-10, 1e-7), (1e-7, 1e-10), (1e-10, 1e-10), (1e-7, 1e-7)])
+    if not in_range(parts, sp, sv, 2.0 ** 56):
+        sp, sv = (1e-16, 1e-16) if f["scales"] == "equal" else (1e-16, 1e-15)
+    P = inner_period(G, parts)
+    dt = P / rng.choice([8, 20, 50, 150, 400]) * (1 if f["sign"] == "+" else -1)
+    longstep = kind == 0 and f["ncls"] == "short" and rng.chance(0.15)
+    if longstep:
+        dt = P * rng.uniform(1.1, 2.5) * (1 if dt > 0 else -1)
+    nst = {"short": rng.randint(3, 10), "medium": rng.randint(11, 150), "long": rng.randint(151, nmax)}[f["ncls"]]
+    if kind == 2:
+        nst = min(nst, 300)
+    if fc["k"] != 0 or "probe" in fc["cb"]:
+        nst = min(nst, 80)
+    if big:
+        nst = min(nst, 12)
+    return dict(order=f["order"], sp=sp, sv=sv, fc=fc, parts=parts, dt=dt, nst=nst, call=f["call"], turn=f["turn"], evA=f["evA"], evB=f["evB"],
+                t0=(rng.choice([1e12, -3e11]) * abs(dt) if f["t0"] == "huge" else None), name=f["name"], G=G, n=n, longstep=longstep,
+                dtfacs=[rng.choice([0.5, 0.37, 2.0, -1.5]), rng.choice([0.7, 1.3, -0.6])], again=rng.chance(0.15))
+
+
+def janus_run(R, P):
+    """snap to the grid (one dt=0 step); forward leg of P['nst'] steps with event evA after step s and evB after step s+1
+    (sync = synchronize/energy/angular_momentum, dt = the user changes the step, save / copy = binary file round trip /
+    copy(), continuing on the restored object with the callbacks re-installed); turning point (plain: `sim.dt = -sim.dt`,
+    or after a restore / on a copy); the backward leg mirrors the segments.  call: steps(n) | n times step() |
+    integrate() without exact finish time, heartbeat installed.  Returns dict(i0,d0,i1,i2,d2,i3?,flag_bad,sim)."""
+    fc = P["fc"]
+    if P["call"].startswith("integrate"):
         fc = dict(fc, cb=tuple(fc["cb"]) + ("hb",))
-    s = R.sim(fc, parts, name, janus=(order, sp, sv))
-    if t0 is not None:
-        s.t = t0
+    s = R.sim(fc, P["parts"], P.get("name", "janus"), janus=(P["order"], P["sp"], P["sv"]))
+    if P.get("t0") is not None:
+        s.t = P["t0"]
     s.dt = 0.0
     s.step()                                   # snap the initial conditions to the grid
     out = dict(sim=s, flag_bad=0)
     out["flag_bad"] += not R.flag_clear(s)
     out["i0"], out["d0"] = R.ints(s), [d2h(v) for v in R.doubles(s)]
-    fwd = [(dt, nst)] if dt2 is None else [(dt, nst - nst // 2), (dt2, nst // 2)]
+    segs = []                                  # (dt, n) actually executed on the forward leg
 
-    def leg(s, n):
-        if mode == "interleave":
-            k = 0
-            while k < n:
-                ch = min(n - k, max(1, n // 3))
-                s.steps(ch)
-                k += ch
-                s.synchronize()
-                s.energy()
-                s.angular_momentum()
-                out["flag_bad"] += not R.flag_clear(s)
-        elif mode == "integrate":
+    def advance(s, n):
+        if n <= 0:
+            return s
+        if P["call"] == "single":
+            for _ in range(n):
+                s.step()
+        elif P["call"].startswith("integrate"):
             before = s.steps_done
             s.integrate(s.t + (n - 0.5) * s.dt, exact_finish_time=0)
             if s.steps_done - before != n:
                 out["steps_mismatch"] = (s.steps_done - before, n)
-        elif mode in ("save", "copy") and n >= 2:
-            s.steps(n // 2)
-            s = reload_sim(R, s, mode)
-            out["flag_bad"] += not R.flag_clear(s)
-            s.steps(n - n // 2)
         else:
             s.steps(n)
         out["flag_bad"] += not R.flag_clear(s)
         return s
-    for d, n in fwd:
-        s.dt = d
-        s = leg(s, n)
+
+    def fwd(s, n):
+        if n > 0:
+            segs.append((s.dt, n))
+        return advance(s, n)
+
+    def event(s, ev, k):
+        if ev == "sync":
+            s.synchronize()
+            s.energy()
+            s.angular_momentum()
+        elif ev == "dt":
+            s.dt = s.dt * P["dtfacs"][k]
+        elif ev in ("save", "copy"):
+            s = reload_sim(R, s, ev)
+        out["flag_bad"] += not R.flag_clear(s)
+        return s
+    nst = P["nst"]
+    s.dt = P["dt"]
+    if P["evA"] == "none" and P["evB"] == "none":
+        s = fwd(s, nst)
+    else:
+        na = max(1, (nst - 1) // 2)
+        s = fwd(s, na)
+        s = event(s, P["evA"], 0)
+        s = fwd(s, 1)
+        s = event(s, P["evB"], 1)
+        s = fwd(s, nst - 1 - na)
     out["i1"] = R.ints(s)
     out["sim"] = s
     if max(abs(v) for v in out["i1"]) >= 2 ** 62:
         out["near_range"] = True
         return out
-    if mode == "restore_turn":
+    if P["turn"] == "restore":
         s = reload_sim(R, s, "save")
-    for d, n in reversed(fwd):
-        s.dt = -d if dt2 is not None else -s.dt      # a single leg: the user's `sim.dt = -sim.dt`
-        s = leg(s, n)
-        if dt2 is None:
-            break
+    elif P["turn"] == "copy":
+        s = reload_sim(R, s, "copy")
+    single = len({d for d, _ in segs}) == 1
+    if single:
+        s.dt = -s.dt                             # the way users do it
+        s = advance(s, sum(n for _, n in segs))
+    else:
+        for d, n in reversed(segs):
+            s.dt = -d
+            s = advance(s, n)
     out["i2"], out["d2"] = R.ints(s), [d2h(v) for v in R.doubles(s)]
-    if again and dt2 is None:
+    if P.get("again") and single:
         s.dt = -s.dt
-        s = leg(s, nst)
+        s = advance(s, sum(n for _, n in segs))
         out["i3"] = R.ints(s)
     out["sim"] = s
     return out
 
 
 def search_janus(c, R):
-    """the property itself on the real code: snap to the grid (one dt=0 step), n steps with dt, flip the
-    sign of dt the way users do, n steps, compare bits of p_int and of every particle double — over every
-    configuration dimension that must not matter: N_active < N (massive and massless test particles, both
-    testparticle_type), softening, read-only pre/post/additional_forces callbacks, a velocity-independent
-    additional force, compensated gravity, harmless calls between steps, integrate() with a heartbeat."""
+    """the property itself on the real code: snap to the grid (one dt=0 step), n steps with dt, flip the sign of dt the
+    way users do, n steps, compare bits of p_int and of every particle double.  Cases come from a greedy all-pairs
+    covering array of JANUS_FACTORS (every pair of values of two factors occurs in some case; in thorough also every
+    triple of JANUS_TRIPLES); whatever is not a factor is drawn at random."""
+    import c10_cover as CV
     rng = c.rng.fork()
-    ncase = 1200 if c.thorough else 500
+    ncase = 1200 if c.thorough else 450
     nmax = 10000 if c.thorough else 1000
+    F = CV.Factors(JANUS_FACTORS, JANUS_EXCLUDED, JANUS_TRIPLES)
+    arr3, stuck = CV.covering_array(F, rng.fork(), with_triples=True, ncand=12)
+    cases = []
+    if c.thorough:
+        cases += arr3
+    else:
+        k = max(1, len(arr3) // 3)           # a seed-rotated third of the 3-way array
+        off = (c.seed * k) % len(arr3)
+        cases += (arr3 + arr3)[off:off + k]
+    while len(cases) < ncase:                # independent pairwise arrays (different random completions)
+        a2, st2 = CV.covering_array(F, rng.fork(), ncand=25)
+        cases += a2
+        stuck += st2
+    cases = cases[:max(ncase, len(arr3) if c.thorough else 0)]
+    cov = CV.Coverage(F, with_triples=c.thorough, implied_excluded=stuck)
     hist, cfgh = {}, {}
     moved_all = 0
     nviol = 0
     flag_bad = 0
     probe_checked, probe_first = 0, None
-    for case in range(ncase):
-        n = rng.randint(2, 8)
-        kind = rng.randint(0, 2)
-        G, parts = gen_planetary(rng, n) if kind < 2 else gen_cloud(rng, n)
-        order = [2, 4, 6, 8, 10][case % 5]
-        sp, sv = rng.choice(SCALES), rng.choice(SCALES)
-        if not in_range(parts, sp, sv, 2.0 ** 56):
-            sp = sv = 1e-16
-        P = inner_period(G, parts)
-        big = (case % 97 == 13) or (c.thorough and case % 97 == 50)
-        if big:                                   # crosses the 128-entry allocation boundary of p_int / particles
-            n = rng.randint(129, 160)
-            G, parts = gen_cloud(rng, n)
-            kind = 2
-            sp = sv = 1e-16
-            P = inner_period(G, parts)
-        fc = gen_fc(rng, G, parts, full=(case % 2 == 1 and not big), extra=True)
-        mode = "steps"
-        if case % 2 == 1:
-            mode = rng.choice(["steps", "steps", "interleave", "integrate", "save", "copy", "restore_turn"])
-        if mode in ("save", "copy", "restore_turn"):
-            # function pointers are not part of a saved / copied simulation: no callbacks in these histories
-            fc = dict(fc, cb=(), k=0.0, gravity=("basic" if fc["gravity"] == "none" else fc["gravity"]))
-        dt = P / rng.choice([8, 20, 50, 150, 400]) * (1 if rng.chance(0.7) else -1)
-        longstep = kind < 2 and rng.chance(0.05)
-        if longstep:
-            dt = P * rng.uniform(1.1, 2.5) * (1 if dt > 0 else -1)
-        r = rng.uniform()
-        nst = rng.randint(1, 10) if r < 0.3 else (rng.randint(10, 200) if r < 0.8 else rng.randint(200, nmax))
-        if kind == 2:
-            nst = min(nst, 300)       # clouds can eject particles towards the edge of the int64 range
-        if fc["k"] != 0 or "probe" in fc["cb"]:
-            nst = min(nst, 80)        # a Python callback at every stage
-        if big or longstep:
-            nst = min(nst, 30)
-        again = rng.chance(0.2)
-        dt2 = dt * rng.choice([0.5, 0.37, 2.0, -1.5]) if (case % 2 == 1 and mode != "integrate" and rng.chance(0.25) and nst >= 2) else None
-        t0 = rng.choice([1e12, -3e11]) * abs(dt) if (case % 2 == 1 and mode != "integrate" and rng.chance(0.1)) else None
-        iname = "JANUS" if rng.chance(0.1) else "janus"
-        o = janus_roundtrip(R, order, sp, sv, fc, parts, dt, nst, mode, again, dt2=dt2, t0=t0, name=iname)
+    retried = False
+    idx = 0
+    while idx < len(cases):
+        f = cases[idx]
+        idx += 1
+        P = build_janus_case(rng, f, nmax)
+        o = janus_run(R, P)
+        fc, parts, order, n, nst, dt, sp, sv, G = P["fc"], P["parts"], P["order"], P["n"], P["nst"], P["dt"], P["sp"], P["sv"], P["G"]
         st = o["sim"]._c10
         probe_checked += st["probe_checked"]
         if st["probe_bad"] and probe_first is None:
             probe_first = dict(st["first_bad"], order=order, fc=fc, bad=st["probe_bad"], checked=st["probe_checked"])
         flag_bad += o["flag_bad"]
+        skip = None
         if o.get("near_range"):
+            skip = "skipped_near_int64_range"
+        elif "steps_mismatch" in o:
+            skip = "integrate_step_count_mismatch"
+        if skip:
             c.count(None, nontrivial=False)
-            hist["skipped_near_int64_range"] = hist.get("skipped_near_int64_range", 0) + 1
-            continue
-        if "steps_mismatch" in o:
-            hist["integrate_step_count_mismatch"] = hist.get("integrate_step_count_mismatch", 0) + 1
-            c.count(None, nontrivial=False)
-            continue
-        i0, d0, i1, i2, d2 = o["i0"], o["d0"], o["i1"], o["i2"], o["d2"]
-        moved = all(any(i1[6 * p + k] != i0[6 * p + k] for k in range(3)) for p in range(n))
-        key = ("janus", order, n, sp, sv, min(3, int(math.log10(nst))), dt > 0, mode) + fc_class(fc)
-        c.count(key, nontrivial=moved)
-        moved_all += moved
-        na_eff = n if fc["nactive"] == -1 else fc["nactive"]
-        dim("janus: gravity " + ("none + additional force" if fc["gravity"] == "none" else fc["gravity"]))
-        for cond, nm in ((fc["soft"] != 0, "softening != 0"), (G != 1.0, "G != 1"), (sp != sv, "scale_pos != scale_vel"),
-                         (na_eff < n and fc["tptype"] == 0, "N_active < N, testparticle_type 0"), (na_eff < n and fc["tptype"] == 1, "N_active < N, testparticle_type 1"),
-                         (na_eff < n and any(p[0] == 0 for p in parts[na_eff:]), "massless test particles"),
-                         (na_eff < n and any(p[0] != 0 for p in parts[na_eff:]), "massive test particles"),
-                         (na_eff == 1 and n > 1, "single active body"), (any(p[0] == 0 for p in parts[1:na_eff]), "zero-mass active body"),
-                         ("pre" in fc["cb"], "callback pre_timestep_modifications"), ("post" in fc["cb"], "callback post_timestep_modifications"),
-                         ("probe" in fc["cb"], "callback additional_forces (read-only probe)"), (fc["k"] != 0, "additional force, velocity independent"),
-                         (mode == "integrate", "heartbeat + integrate()"), (dt < 0, "dt < 0 first"), (longstep, "step longer than the inner period"),
-                         (mode == "interleave", "split calls with synchronize/energy between"), (mode == "save", "save + restore mid-way"),
-                         (mode == "copy", "copy() mid-way"), (mode == "restore_turn", "restore at the turning point"), (dt2 is not None, "dt changed by the user mid-run"),
-                         (t0 is not None, "t0 huge (|t|/dt ~ 1e12)"), (kind < 2 and any(abs(v) > 0 for v in parts[0][1:]), "COM offset + boost"),
-                         (n > 128, "N > 128"), (iname == "JANUS", "integrator name upper case")):
-            if cond:
-                dim("janus: " + nm)
-        hist[str(order)] = hist.get(str(order), 0) + 1
-        tag = ("test-particles type %d%s" % (fc["tptype"], " massless" if any(p[0] == 0 for p in parts) else "")) if fc["nactive"] not in (-1, n) else "all active"
-        tag += "; callbacks " + ",".join(fc["cb"]) if fc["cb"] else ""
-        tag += "; additional force" if fc["k"] else ""
-        tag += "; " + mode if mode != "steps" else ""
-        tag += "; dt changed mid-run" if dt2 is not None else ""
-        tag += "; softening" if fc["soft"] else ""
-        tag += "; " + fc["gravity"] if fc["gravity"] != "basic" else ""
-        cfgh[tag] = cfgh.get(tag, 0) + 1
-        rep_d = dict(integrator="janus", order=order, scale_pos=sp, scale_vel=sv, G=G, fc=fc, mode=mode, dt=dt, dt2=dt2, t0=t0, nsteps=nst, particles=parts,
-                     procedure="add particles; configure (N_active, testparticle_type, softening, callbacks, additional force, gravity); janus; one step with dt=0 (snap); "
-                               "nsteps with dt; sim.dt=-sim.dt; nsteps; compare p_int and particle bits")
-        suffix = ("-testparticles" if fc["nactive"] not in (-1, n) else "") + ("-callbacks" if (fc["cb"] or fc["k"] or mode == "integrate") else "")
-        if i2 != i0 or d2 != d0:
-            nviol += 1
-            j = next(i for i in range(6 * n) if i2[i] != i0[i] or d2[i] != d0[i])
-            c.violation("janus-roundtrip-order%d%s" % (order, suffix),
-                        "JANUS order %d (%s): %d steps forward and %d steps back do not return the initial bits (particle %d %s: %s -> %s, grid %d -> %d)"
-                        % (order, tag, nst, nst, j // 6, COMP[j % 6], d0[j], d2[j], i0[j], i2[j]), rep_d)
-            if nviol >= 4:
-                break
-        if again and "i3" in o and o["i3"] != i1:
-            c.violation("janus-there-back-there-order%d%s" % (order, suffix),
-                        "JANUS order %d (%s): forward/back/forward does not reproduce the first forward leg" % (order, tag), rep_d)
-        if case < 2:
-            c.sample(dict(kind="janus round trip", order=order, N=n, scale_pos=sp, scale_vel=sv, dt=dt, nsteps=nst, config=tag, returned_exact=(i2 == i0)))
+            hist[skip] = hist.get(skip, 0) + 1
+        else:
+            cov.add(f)
+            i0, d0, i1, i2, d2 = o["i0"], o["d0"], o["i1"], o["i2"], o["d2"]
+            moved = all(any(i1[6 * p + k] != i0[6 * p + k] for k in range(3)) for p in range(n))
+            c.count(("janus",) + tuple(f[k] for k in F.names), nontrivial=moved)
+            moved_all += moved
+            hist[str(order)] = hist.get(str(order), 0) + 1
+            na_eff = n if fc["nactive"] == -1 else fc["nactive"]
+            dim("janus: gravity " + ("none + additional force" if fc["gravity"] == "none" else fc["gravity"]))
+            evs = (f["evA"], f["evB"])
+            for cond, nm in ((fc["soft"] != 0, "softening != 0"), (G != 1.0, "G != 1"), (sp != sv, "scale_pos != scale_vel"),
+                             (na_eff < n and fc["tptype"] == 0, "N_active < N, testparticle_type 0"), (na_eff < n and fc["tptype"] == 1, "N_active < N, testparticle_type 1"),
+                             (na_eff < n and any(p[0] == 0 for p in parts[na_eff:]), "massless test particles"),
+                             (na_eff < n and any(p[0] != 0 for p in parts[na_eff:]), "massive test particles"),
+                             (na_eff == 1 and n > 1, "single active body"), (any(p[0] == 0 for p in parts[1:na_eff]), "zero-mass active body"),
+                             ("pre" in fc["cb"], "callback pre_timestep_modifications"), ("post" in fc["cb"], "callback post_timestep_modifications"),
+                             ("probe" in fc["cb"], "callback additional_forces (read-only probe)"), (fc["k"] != 0, "additional force, velocity independent"),
+                             (f["call"].startswith("integrate"), "heartbeat + integrate()"), (dt < 0, "dt < 0 first"), (P["longstep"], "step longer than the inner period"),
+                             ("sync" in evs or f["call"] == "single", "split calls with synchronize/energy between"), ("save" in evs, "save + restore mid-way"),
+                             ("copy" in evs, "copy() mid-way"), (f["turn"] != "plain", "restore at the turning point"), ("dt" in evs, "dt changed by the user mid-run"),
+                             (P["t0"] is not None, "t0 huge (|t|/dt ~ 1e12)"), (f["system"] == "offset+boost", "COM offset + boost"),
+                             (n > 128, "N > 128"), (f["name"] == "JANUS", "integrator name upper case")):
+                if cond:
+                    dim("janus: " + nm)
+            tag = " ".join("%s=%s" % (k, f[k]) for k in ("force", "roles", "cb", "call", "turn", "evA", "evB", "scales", "system", "t0", "nsize") if f[k] not in ("none", "plain", "all", "0", "small", "equal", "planetary", "basic", "steps"))
+            cfgh[tag] = cfgh.get(tag, 0) + 1
+            rep_d = dict(integrator="janus", case=P, factors=f, order=order, scale_pos=sp, scale_vel=sv, G=G, fc=fc, dt=dt, nsteps=nst, particles=parts,
+                         procedure="add particles; configure per `factors`; janus; one step with dt=0 (snap); forward leg with the two adjacent events; turning point; "
+                                   "mirrored backward leg; compare p_int and particle bits")
+            suffix = ("-testparticles" if na_eff < n else "") + ("-callbacks" if (fc["cb"] or fc["k"] or f["call"].startswith("integrate")) else "") + \
+                     ("-history" if (f["turn"] != "plain" or set(evs) - {"none"}) else "")
+            if i2 != i0 or d2 != d0:
+                nviol += 1
+                j = next(i for i in range(6 * n) if i2[i] != i0[i] or d2[i] != d0[i])
+                c.violation("janus-roundtrip-order%d%s" % (order, suffix),
+                            "JANUS order %d (%s): %d steps forward and %d steps back do not return the initial bits (particle %d %s: %s -> %s, grid %d -> %d)"
+                            % (order, tag or "default configuration", nst, nst, j // 6, COMP[j % 6], d0[j], d2[j], i0[j], i2[j]), rep_d)
+                if nviol >= 5:
+                    break
+            if "i3" in o and o["i3"] != i1:
+                c.violation("janus-there-back-there-order%d%s" % (order, suffix),
+                            "JANUS order %d (%s): forward/back/forward does not reproduce the first forward leg" % (order, tag), rep_d)
+            if idx <= 2:
+                c.sample(dict(kind="janus round trip", factors=f, N=n, dt=dt, nsteps=nst, returned_exact=(i2 == i0)))
+        if idx == len(cases) and not retried:
+            # tuples lost to skipped runs: one more case for each
+            retried = True
+            for t in cov.missing_cases_seed()[:200]:
+                extra = CV.complete(F, t, rng)
+                if extra is not None:
+                    cases.append(extra)
+    rep = cov.report()
+    rep["excluded_reasons"] = CV.excluded_table(F)
+    rep["cases"] = idx
+    PAIRS["janus round trips"] = rep
     c.cov["janus_roundtrips_by_order"] = hist
-    c.cov["janus_roundtrips_by_configuration"] = dict(sorted(cfgh.items(), key=lambda kv: -kv[1])[:40])
+    c.cov["janus_roundtrips_by_configuration"] = dict(sorted(cfgh.items(), key=lambda kv: -kv[1])[:25])
     c.cov["janus_roundtrips_all_particles_moved"] = moved_all
     c.cov["janus_search_force_position_probe_checks"] = probe_checked
     if probe_first is not None:
@@ -956,6 +1113,233 @@ def search_janus(c, R):
                      "is not to_double(p_int) (order %d)" % (probe_first["particle"], probe_first["N"], probe_first["N_active"], probe_first["order"]), probe_first)
     if flag_bad:
         c.corr_break("ri_janus.recalculate_integer_coordinates_this_timestep / N_allocated not clear at %d step boundaries of undisturbed search runs" % flag_bad)
+
+
+# ----------------------------------------------------------------------------- SABA schedule replay
+SABA_INDEX = {"1": 0, "2": 1, "3": 2, "4": 3, "10,4": 4, "8,6,4": 5, "10,6,4": 6, "h8,4,4": 7, "h8,6,4": 8, "h10,6,4": 9}
+
+
+def corr_saba(c, R, exe):
+    """tie of RV/Model/C10Saba.lean (the stage loop of reb_integrator_saba_part2 with its mirror indices): the operator
+    list the Lean model produces (driver op `saba`) is replayed through the exported primitives
+    (reb_whfast_kepler_step + reb_whfast_com_step / reb_integrator_whfast_to_inertial + reb_simulation_update_acceleration /
+    reb_whfast_interaction_step) and must reproduce reb_simulation_step with integrator = "saba" bit for bit, for all ten
+    uncorrected types, with and without test particles, both signs of dt, several consecutive steps."""
+    from fractions import Fraction
+    rng = c.rng.fork()
+    clib = R.rb.clibrebound
+    got = run_driver(exe, ["saba %d" % i for i in range(10)])
+    scheds = []
+    for g in got:
+        ops = []
+        for t in g.split():
+            kind, q = t.split(":")
+            num, den = q.split("/")
+            ops.append((int(kind), float(Fraction(int(num), int(den)))))
+        scheds.append(ops)
+    nbad, ncmp, first = 0, 0, None
+    reps = 4 if c.thorough else 2
+    for name, idx in SABA_INDEX.items():
+        ops = scheds[idx]
+        if not ops:
+            c.corr_break("driver returned no schedule for SABA type %s: %s" % (name, got[idx][:60]))
+            continue
+        for rep in range(reps):
+            n = rng.randint(3, 6)
+            G, parts = gen_planetary(rng, n, calm=True, moderate=(rep % 2 == 1))
+            fc = mkfc(G)
+            if rep % 2 == 1:
+                fc["nactive"] = rng.randint(2, n - 1)
+                for p in parts[fc["nactive"]:]:
+                    p[0] = 0.0
+            dt = inner_period(G, parts) / rng.choice([20, 60]) * (1 if rng.chance(0.5) else -1)
+            a, b = R.sim(fc, parts, "saba"), R.sim(fc, parts, "saba")
+            for s_ in (a, b):
+                s_.ri_saba.type = name
+                s_.move_to_com()
+                s_.dt = dt
+            r = ctypes.byref(b)
+            for step in range(4):
+                a.step()
+                b.gravity_ignore_terms = 1
+                clib.reb_integrator_whfast_init(r)
+                clib.reb_integrator_whfast_from_inertial(r)
+                for kind, co in ops:
+                    if kind == 0:
+                        clib.reb_whfast_kepler_step(r, ctypes.c_double(co * dt))
+                        clib.reb_whfast_com_step(r, ctypes.c_double(co * dt))
+                    elif kind == 2:
+                        clib.reb_integrator_whfast_to_inertial(r)
+                        clib.reb_simulation_update_acceleration(r)
+                    elif kind == 1:
+                        clib.reb_whfast_interaction_step(r, ctypes.c_double(co * dt))
+                clib.reb_integrator_whfast_to_inertial(r)
+                ncmp += 1
+                da, db = R.doubles(a), R.doubles(b)
+                if [d2h(v) for v in da] != [d2h(v) for v in db]:
+                    e = relerr(da, db, n)
+                    if not e <= 64 * n * 2.3e-16:        # tolerance policy of a "to rounding error" tie
+                        nbad += 1
+                        first = first or dict(type=name, step=step, N=n, N_active=fc["nactive"], dt=dt, error=e, ops=len(ops))
+                    break
+            c.count(("corr-saba", name, fc["nactive"] != -1, dt < 0), n=4)
+    c.cov["saba_model_replay_steps_compared"] = ncmp
+    c.cov["saba_model_schedule_lengths"] = {k: len(scheds[i]) for k, i in SABA_INDEX.items()}
+    if nbad:
+        c.corr_break("SABA: replaying the operator list of the Lean model through the exported primitives does not reproduce reb_simulation_step (%d runs); first: type %s"
+                     % (nbad, first["type"]), first)
+
+
+# ----------------------------------------------------------------------------- public entry points
+def entry_points(c, R):
+    """every public function / attribute that reaches the reversal mechanism, extracted from the headers of the anchored files
+    and from the Python classes, must be exercised in this run:
+      C   reb_integrator_{janus,leapfrog,sei,whfast,saba,eos}_{part1,part2,synchronize,reset,init}: a step assembled by hand
+          (part1; reb_simulation_update_acceleration; part2) must equal reb_simulation_step bit for bit, synchronize must not
+          move a synchronized state, reset must restore the documented defaults; reb_simulation_step / _steps / _integrate /
+          _synchronize / _reset_integrator; reb_whfast_kepler_solver (probe_kepler);
+      Py  Simulation.step / steps / integrate / synchronize, the integrator names (both cases), every field of
+          IntegratorJanus and IntegratorSEI (written and read back)."""
+    import re
+    rb, clib = R.rb, R.rb.clibrebound
+    src = os.path.join(REPO, "src")
+    fams = ["janus", "leapfrog", "sei", "whfast", "saba", "eos"]
+    table = []
+    for fam in fams:
+        h = open(os.path.join(src, "integrator_%s.h" % fam)).read()
+        table += ["C:" + m for m in re.findall(r"\b(reb_integrator_%s_(?:part1|part2|synchronize|reset|init))\s*\(" % fam, h)]
+    hdr = open(os.path.join(src, "rebound.h")).read()
+    table += ["C:" + m for m in re.findall(r"DLLEXPORT[^;\n]*?\b(reb_simulation_(?:step|steps|integrate|synchronize|reset_integrator))\s*\(", hdr)]
+    table += ["C:" + m for m in re.findall(r"\b(reb_whfast_kepler_solver)\s*\(", open(os.path.join(src, "integrator_whfast.h")).read())]
+    simpy = open(os.path.join(REPO, "rebound", "simulation.py")).read()
+    table += ["Py:Simulation." + m for m in sorted(set(re.findall(r"^    def (step|steps|integrate|synchronize)\(", simpy, flags=re.M)))]
+    mi = re.search(r"^INTEGRATORS\s*=\s*\{(.*?)\}", simpy, flags=re.M | re.S)
+    names = re.findall(r'"(\w+)"\s*:', mi.group(1)) if mi else []
+    table += ["Py:integrator=" + nm for nm in names if nm in fams]
+    for cls, fn in (("IntegratorJanus", "janus.py"), ("IntegratorSEI", "sei.py")):
+        txt = open(os.path.join(REPO, "rebound", "integrators", fn)).read()
+        mf = re.search(r"class %s\(.*?_fields_\s*=\s*\[(.*?)\]\s*$" % cls, txt, flags=re.S | re.M)
+        table += ["Py:%s.%s" % (cls, f_) for f_ in re.findall(r'\(\s*"(\w+)"', mf.group(1) if mf else "")]
+    table = sorted(set(table))
+    done = set()
+
+    def mk(fam):
+        s = rb.Simulation()
+        s.add(m=1.0)
+        s.add(m=1e-3, x=1.0, vy=1.0)
+        s.add(m=1e-4, x=-1.9, y=0.3, vy=-0.7, vz=0.05)
+        s.move_to_com()
+        s.integrator = fam
+        s.dt = 0.03
+        if fam == "sei":
+            s.ri_sei.OMEGA = 1.0
+            s.G = 1e-6
+        return s
+    bad = []
+    for fam in fams:
+        fn = lambda suffix: getattr(clib, "reb_integrator_%s_%s" % (fam, suffix))
+        a, b = mk(fam), mk(fam)
+        for k in range(3):
+            clib.reb_simulation_step(ctypes.byref(a))
+            fn("part1")(ctypes.byref(b))
+            clib.reb_simulation_update_acceleration(ctypes.byref(b))
+            fn("part2")(ctypes.byref(b))
+        done |= {"C:reb_integrator_%s_part1" % fam, "C:reb_integrator_%s_part2" % fam, "C:reb_simulation_step"}
+        if [d2h(v) for v in R.doubles(a)] != [d2h(v) for v in R.doubles(b)] or d2h(a.t) != d2h(b.t):
+            bad.append("%s: part1; update_acceleration; part2 differs from reb_simulation_step" % fam)
+        before = [d2h(v) for v in R.doubles(b)]
+        fn("synchronize")(ctypes.byref(b))
+        done.add("C:reb_integrator_%s_synchronize" % fam)
+        if [d2h(v) for v in R.doubles(b)] != before:
+            bad.append("%s: synchronize moved a synchronized state" % fam)
+        if "C:reb_integrator_%s_init" % fam in table:
+            fn("init")(ctypes.byref(b))
+            done.add("C:reb_integrator_%s_init" % fam)
+        if "C:reb_integrator_%s_reset" % fam in table:
+            if fam == "janus":
+                b.ri_janus.order, b.ri_janus.scale_pos = 6, 1e-12
+            fn("reset")(ctypes.byref(b))
+            done.add("C:reb_integrator_%s_reset" % fam)
+            if fam == "janus" and not (b.ri_janus.order == 2 and b.ri_janus.scale_pos == 1e-16 and b.ri_janus.scale_vel == 1e-16 and b.ri_janus._N_allocated == 0
+                                       and b.ri_janus.recalculate_integer_coordinates_this_timestep == 0):
+                bad.append("janus: reset does not restore the defaults")
+            # after a reset the integrator must start over cleanly and reverse as before
+            d0 = [d2h(v) for v in R.doubles(b)]
+            if fam == "janus":
+                b.dt = 0.0
+                clib.reb_simulation_step(ctypes.byref(b))
+                d0 = [d2h(v) for v in R.doubles(b)]
+                b.dt = 0.03
+                clib.reb_simulation_steps(ctypes.byref(b), ctypes.c_uint(5))
+                b.dt = -b.dt
+                clib.reb_simulation_steps(ctypes.byref(b), ctypes.c_uint(5))
+                if [d2h(v) for v in R.doubles(b)] != d0:
+                    bad.append("janus: round trip after reb_integrator_janus_reset is not exact")
+    # generic public C entry points on a JANUS simulation
+    a, b = mk("janus"), mk("janus")
+    clib.reb_simulation_steps(ctypes.byref(a), ctypes.c_uint(4))
+    clib.reb_simulation_integrate.restype = ctypes.c_int
+    b.exact_finish_time = 0
+    clib.reb_simulation_integrate(ctypes.byref(b), ctypes.c_double(3.5 * 0.03))
+    clib.reb_simulation_synchronize(ctypes.byref(a))
+    clib.reb_simulation_synchronize(ctypes.byref(b))
+    done |= {"C:reb_simulation_steps", "C:reb_simulation_integrate", "C:reb_simulation_synchronize"}
+    if [d2h(v) for v in R.doubles(a)] != [d2h(v) for v in R.doubles(b)]:
+        bad.append("janus: reb_simulation_integrate (4 steps, no exact finish) differs from reb_simulation_steps(4)")
+    clib.reb_simulation_reset_integrator(ctypes.byref(a))
+    done.add("C:reb_simulation_reset_integrator")
+    if a.ri_janus._N_allocated != 0:
+        bad.append("reb_simulation_reset_integrator does not reset JANUS")
+    if c.cov.get("kepler_primitive_solves_by(orbit,sign of dt,solver branch)"):
+        done.add("C:reb_whfast_kepler_solver")
+    # Python layer
+    a, b = mk("janus"), mk("janus")
+    a.step(); a.step(); a.step()
+    b.steps(3)
+    done |= {"Py:Simulation.step", "Py:Simulation.steps"}
+    if [d2h(v) for v in R.doubles(a)] != [d2h(v) for v in R.doubles(b)]:
+        bad.append("Simulation.step x3 differs from Simulation.steps(3)")
+    a.integrate(a.t + 2.5 * a.dt, exact_finish_time=0)
+    b.steps(3)
+    a.synchronize()
+    b.synchronize()
+    done |= {"Py:Simulation.integrate", "Py:Simulation.synchronize"}
+    if [d2h(v) for v in R.doubles(a)] != [d2h(v) for v in R.doubles(b)]:
+        bad.append("Simulation.integrate (3 steps, no exact finish) differs from Simulation.steps(3)")
+    for nm in fams:
+        for spelling in (nm, nm.upper()):
+            t_ = rb.Simulation()
+            t_.integrator = spelling
+            if t_.integrator != nm:
+                bad.append("integrator spelling %r reads back as %r" % (spelling, t_.integrator))
+        done.add("Py:integrator=" + nm)
+    t_ = rb.Simulation()
+    vals = {"scale_pos": 1e-12, "scale_vel": 1e-13, "order": 8, "recalculate_integer_coordinates_this_timestep": 1, "_N_allocated": 0,
+            "OMEGA": 2.5, "OMEGAZ": 1.5, "_lastdt": 0.25, "_sindt": 0.1, "_tandt": 0.2, "_sindtz": 0.3, "_tandtz": 0.4}
+    for e in table:
+        if e.startswith("Py:IntegratorJanus.") or e.startswith("Py:IntegratorSEI."):
+            obj = t_.ri_janus if "Janus" in e else t_.ri_sei
+            f_ = e.split(".")[1]
+            if f_ == "p_int":
+                ok = not bool(obj.p_int)          # NULL before the first step
+            elif f_ in vals:
+                setattr(obj, f_, vals[f_])
+                ok = getattr(obj, f_) == vals[f_]
+            else:
+                ok = False                        # a field this check does not know yet
+            if ok:
+                done.add(e)
+            else:
+                bad.append("field %s cannot be written and read back (or is new)" % e)
+    missing = [e for e in table if e not in done]
+    c.cov["entry_points"] = {"extracted": len(table), "exercised": len(table) - len(missing), "missing": missing, "list": table}
+    c.count(("entry-points", len(table)), n=len(table))
+    if len(table) < 40:
+        c.corr_break("entry-point extraction found only %d entries (headers / Python classes no longer have the expected shape)" % len(table))
+    if missing:
+        c.corr_break("public entry points of the reversal mechanism not exercised in this run: " + ", ".join(missing[:8]))
+    if bad:
+        c.corr_break("entry points: " + "; ".join(bad[:4]), bad)
 
 
 # ----------------------------------------------------------------------------- velocity-dependent force (negative)
@@ -1284,253 +1668,338 @@ def configure(s, variant):
         s.ri_eos.safe_mode = 1
 
 
-def gen_fc_sym(rng, G, parts, variant, force=None):
-    """configuration sweep for the rounding-level schemes: massless test particles (N_active < N),
-    read-only pre/post callbacks, a velocity-independent additional force"""
+# ---- factors of the round-trip generator for the rounding-level schemes
+EVENTS_S = ["none", "sync", "dt", "save", "flag"]
+
+
+def sym_variants():
+    v = [("leapfrog",)] + [("whfast", k) for k in WH_COORDS] + [("saba", t) for t in SABA_UNCORRECTED]
+    for a in EOS_UNPROCESSED:
+        v.append(("eos", a, "lf", 2))
+    for b in EOS_UNPROCESSED[1:]:
+        v.append(("eos", "lf", b, 2))          # every splitting also as the inner one (phi1)
+    v += [("eos", "lf4", "lf4", 1), ("eos", "lf", "lf8_6_4", 3), ("eos", "lf8", "lf6", 2), ("eos", "lf4_2", "lf4_2", 1), ("eos", "lf6", "lf4", 4)]
+    return v
+
+
+def vname(variant):
+    return "-".join(str(x) for x in variant)
+
+
+def sym_factors():
+    names = [vname(v) for v in sym_variants()]
+    noflag = [n for n in names if not (n.startswith("whfast") or n.startswith("saba"))]
+    novar = [n for n in names if n not in ("leapfrog", "whfast-jacobi")]
+    F = dict(scheme=names, safe=["1", "0"], turn=["sync", "restore", "flag"], evA=EVENTS_S, evB=EVENTS_S, com=["moved", "boost"],
+             roles=["all", "tp_massless"], cb=["none", "pre", "post", "pre+post"], force=["none", "k"], var=["no", "yes"], G=["1", "other"],
+             sign=["+", "-"], fam=["calm_long", "calm_short", "moderate"])
+    X = [("scheme", "leapfrog", "safe", "0", "LEAPFROG has no safe_mode"),
+         ("scheme", noflag, "turn", "flag", "no recalculation flag outside WHFast/SABA"),
+         ("scheme", noflag, "evA", "flag", "no recalculation flag outside WHFast/SABA"),
+         ("scheme", noflag, "evB", "flag", "no recalculation flag outside WHFast/SABA"),
+         ("scheme", novar, "var", "yes", "variational equations exist only for LEAPFROG and WHFast/Jacobi (SABA raises, the others ignore them)"),
+         ("var", "yes", "roles", "tp_massless", "variational particles of test particles: not generated"),
+         ("com", "boost", "fam", "calm_long", "ill-conditioned beyond 1000 steps: |x| grows with t"),
+         ("force", "k", "fam", "calm_long", "cost: Python callback"),
+         ("cb", ["pre", "post", "pre+post"], "fam", "calm_long", "cost: Python callback")]
+    return F, X, ["safe", "turn", "evA", "evB", "com", "roles", "var", "force"]
+
+
+def build_sym_case(rng, f, nmax):
+    variant = next(v for v in sym_variants() if vname(v) == f["scheme"])
+    moderate = f["fam"] == "moderate"
+    n = rng.randint(3, 6) if moderate else rng.randint(3, 8)
+    G, parts = gen_planetary(rng, n, calm=True, moderate=moderate)
+    P0 = inner_period(G, parts)
+    dt = P0 / rng.choice([20, 40, 100]) * (1 if f["sign"] == "+" else -1)
+    nst = {"calm_long": rng.choice([500, nmax, rng.randint(300, nmax)]), "calm_short": rng.randint(20, 200), "moderate": rng.randint(50, 300)}[f["fam"]]
+    if f["G"] != "1":
+        G = rng.choice([4 * math.pi ** 2, 0.01])
+        for p in parts:
+            for k3 in (4, 5, 6):
+                p[k3] *= math.sqrt(G)
+        dt /= math.sqrt(G)
     fc = mkfc(G)
-    n = len(parts)
-    if n >= 3 and (force == "tp" or (force is None and rng.chance(0.4))):
+    if f["roles"] == "tp_massless":
         fc["nactive"] = rng.randint(2, n - 1)
         for p in parts[fc["nactive"]:]:
             p[0] = 0.0
         if variant[0] == "leapfrog":
             fc["tptype"] = rng.randint(0, 1)
-    cb = []
-    if force == "cb" or (force is None and rng.chance(0.25)):
-        cb.append("pre")
-    if (force == "cb" and rng.chance(0.5)) or (force is None and rng.chance(0.25)):
-        cb.append("post")
-    fc["cb"] = tuple(cb)
-    if force == "k" or (force is None and rng.chance(0.2)):
-        fc["k"] = rng.loguniform(1e-3, 3e-2) * (G or 1.0)
-    return fc
+    fc["cb"] = tuple(x for x in f["cb"].split("+") if x != "none")
+    if f["force"] == "k":
+        fc["k"] = rng.loguniform(1e-3, 3e-2) * G
+        nst = min(nst, 150)
+    if f["com"] == "boost":
+        off = [rng.normal() * 2 for _ in range(3)] + [rng.normal() * 0.2 * math.sqrt(G) for _ in range(3)]
+        for p in parts:
+            for k3 in range(6):
+                p[1 + k3] += off[k3]
+        nst = min(nst, 1000)
+    return dict(variant=list(variant), fc=fc, parts=parts, dt=dt, nst=nst, safe=int(f["safe"]), turn=f["turn"], evA=f["evA"], evB=f["evB"], com=f["com"],
+                var=f["var"] == "yes", dtfacs=[rng.choice([0.5, 0.7, 1.5]), rng.choice([0.8, 1.25])], G=G, n=n)
 
 
-def roundtrip(R, G, parts, variant, dt, nst, opts=None):
-    """n steps with dt, synchronize, `sim.dt = -sim.dt`, n steps, synchronize.  opts:
-    safe=0: safe_mode off (synchronize only at the turning point and at the end); turn="restore": binary file
-    round trip at the turning point; dtfac: the user changes dt (after a synchronize) in the middle of the
-    forward leg, the backward leg mirrors it; com="boost": no move_to_com, the centre of mass is offset and
-    moving; var: a first-order variational particle with non-zero data rides along and must come back too."""
-    o = dict(safe=1, turn="sync", dtfac=None, com="moved", var=False)
-    o.update(opts or {})
-    s = R.sim(G, parts, "leapfrog")
+def sym_run(R, P, dtdiv=1):
+    """forward leg of nst steps with event evA after step s and evB after step s+1 (sync = synchronize; dt = synchronize,
+    then the user changes the step; save = binary file round trip of the possibly unsynchronized simulation, continue on the
+    restored object; flag = synchronize, then set ri_whfast.recalculate_coordinates_this_timestep as documented after
+    touching particles); turning point: synchronize, then (restore | set the flag | nothing), negate dt; mirrored backward
+    leg; synchronize.  dtdiv: all steps divided / all counts multiplied (dt-halving discriminator)."""
+    variant = tuple(P["variant"])
+    s = R.sim(P["fc"], P["parts"], "leapfrog")
     configure(s, variant)
-    if o["safe"] == 0 and variant[0] in ("whfast", "saba", "eos"):
+    if P["safe"] == 0 and variant[0] in ("whfast", "saba", "eos"):
         getattr(s, "ri_" + variant[0]).safe_mode = 0
-    if o["com"] == "moved" and variant[0] != "leapfrog":
+    if P["com"] == "moved" and variant[0] != "leapfrog":
         s.move_to_com()
-    if o["var"]:
+    if P["var"]:
         v = s.add_variation()
-        for i in range(len(parts)):
+        for i in range(len(P["parts"])):
             q = v.particles[i]
             q.x, q.y, q.z = 0.3 + 0.1 * i, -0.2 + 0.05 * i, 0.01 * (i + 1)
             q.vx, q.vy, q.vz = 0.05 * (i + 1), 0.4 - 0.1 * i, -0.02 * i
     d0 = R.doubles(s)
-    fwd = [(dt, nst)] if o["dtfac"] is None else [(dt, nst - nst // 2), (dt * o["dtfac"], nst // 2)]
-    for d, n in fwd:
-        s.synchronize()
-        s.dt = d
-        s.steps(n)
+    segs = []          # [dt, n, synchronized_after]: the backward leg synchronizes exactly where the forward leg did (for EOS an
+                       # unsynchronised pair of steps is a different — still symmetric — scheme than two synchronized ones)
+
+    def fwd(s, n):
+        if n > 0:
+            segs.append([s.dt, n, False])
+            s.steps(n)
+        return s
+
+    def event(s, ev, k):
+        if ev in ("sync", "dt", "flag"):
+            s.synchronize()
+            if segs:
+                segs[-1][2] = True
+        if ev == "dt":
+            s.dt = s.dt * P["dtfacs"][k]
+        elif ev == "save":
+            s = reload_sim(R, s, "save")
+        elif ev == "flag":
+            s.ri_whfast.recalculate_coordinates_this_timestep = 1
+        return s
+    nst = P["nst"] * dtdiv
+    s.dt = P["dt"] / dtdiv
+    if P["evA"] == "none" and P["evB"] == "none":
+        s = fwd(s, nst)
+    else:
+        na = max(1, (nst - dtdiv) // 2)
+        s = fwd(s, na)
+        s = event(s, P["evA"], 0)
+        s = fwd(s, dtdiv)
+        s = event(s, P["evB"], 1)
+        s = fwd(s, nst - dtdiv - na)
     d1 = R.doubles(s)
     s.synchronize()
-    if o["turn"] == "restore":
+    if P["turn"] == "restore":
         s = reload_sim(R, s, "save")
-    for d, n in reversed(fwd):
-        s.synchronize()
-        s.dt = -d if o["dtfac"] is not None else -s.dt
+    elif P["turn"] == "flag":
+        s.ri_whfast.recalculate_coordinates_this_timestep = 1
+    s.dt = -s.dt                                  # the user's sign flip at the turning point
+    for j in range(len(segs) - 1, -1, -1):
+        d, n, _ = segs[j]
+        if s.dt != -d:
+            s.dt = -d                             # (only after a synchronize: a dt event synchronized the forward leg here)
         s.steps(n)
+        if j > 0 and segs[j - 1][2]:
+            s.synchronize()
     s.synchronize()
     return d0, d1, R.doubles(s)
 
 
 def search_symmetric(c, R):
+    import c10_cover as CV
     rng = c.rng.fork()
-    variants = [("leapfrog",)] + [("whfast", k) for k in WH_COORDS] + [("saba", t) for t in SABA_UNCORRECTED]
-    for a in EOS_UNPROCESSED:
-        variants.append(("eos", a, "lf", 2))
-    for b in EOS_UNPROCESSED[1:]:
-        variants.append(("eos", "lf", b, 2))          # every splitting also as the inner one (phi1)
-    variants += [("eos", "lf4", "lf4", 1), ("eos", "lf", "lf8_6_4", 3), ("eos", "lf8", "lf6", 2), ("eos", "lf4_2", "lf4_2", 1)]
-    reps = 8 if c.thorough else 4
     nmax = 10000 if c.thorough else 1000
-    worst = {}
-    worst_fam = {}
-    cfgh = {}
+    Fd, X, T = sym_factors()
+    F = CV.Factors(Fd, X, T)
+    arr, stuck = CV.covering_array(F, rng.fork(), with_triples=c.thorough, ncand=12)
+    cases = arr                    # the complete pairwise array also in quick (about 170 cases); pairs + triples in thorough
+    cov = CV.Coverage(F, with_triples=c.thorough, implied_excluded=stuck)
+    worst, worst_fam = {}, {}
     disc = 0
-    sw = 0
-    for rep in range(reps):
-        for variant in variants:
-            moderate = rep % 2 == 1
-            n = rng.randint(2, 6) if moderate else rng.randint(2, 8)
-            G, parts = gen_planetary(rng, n, calm=True, moderate=moderate)
-            P = inner_period(G, parts)
-            dt = P / rng.choice([20, 40, 100]) * (1 if rng.chance(0.7) else -1)
-            nst = rng.randint(50, 300) if moderate else rng.choice([50, 200, 500, nmax, rng.randint(20, nmax)])
-            sweep = (rep + variants.index(variant)) % 2 == 1
-            prim = None
-            if sweep:
-                # one primary dimension per swept case, in rotation (every dimension is reached in every run), plus random extras
-                prims = ["safe", "restore", "dtfac", "boost", "tp", "cb", "k", "var", "G"]
-                for _ in range(len(prims)):
-                    prim = prims[sw % len(prims)]
-                    sw += 1
-                    ok = {"safe": variant[0] != "leapfrog", "tp": n >= 3,
-                          "var": variant[0] == "leapfrog" or variant[:2] == ("whfast", "jacobi")}.get(prim, True)
-                    if ok:
-                        break
-            if prim == "G" or (sweep and rng.chance(0.15)):                   # G != 1: same orbits, velocities rescaled
-                G = rng.choice([4 * math.pi ** 2, 0.01])
-                for p in parts:
-                    for k3 in (4, 5, 6):
-                        p[k3] *= math.sqrt(G)
-                dt /= math.sqrt(G)
-            G0 = G
-            G = gen_fc_sym(rng, G0, parts, variant, force=(prim if prim in ("tp", "cb", "k") else ("none" if prim else None))) if sweep else mkfc(G0)
-            opts = {}
-            if sweep:
-                if variant[0] != "leapfrog" and (prim == "safe" or rng.chance(0.2)):
-                    opts["safe"] = 0
-                if (prim == "restore" or rng.chance(0.1)) and not G["cb"] and G["k"] == 0:
-                    opts["turn"] = "restore"           # function pointers are not persisted
-                if prim == "dtfac" or rng.chance(0.15):
-                    opts["dtfac"] = rng.choice([0.5, 0.7, 1.5])
-                if prim == "boost" or rng.chance(0.15):
-                    opts["com"] = "boost"
-                    off = [rng.normal() * 2 for _ in range(3)] + [rng.normal() * 0.2 * math.sqrt(G0) for _ in range(3)]
-                    for p in parts:
-                        for k3 in range(6):
-                            p[1 + k3] += off[k3]
-            if (variant[0] == "leapfrog" or variant[:2] == ("whfast", "jacobi")) and G["nactive"] == -1 and (sweep or rng.chance(0.5)):
-                opts["var"] = True             # the only two schemes of the family with variational equations
-            if G["k"] != 0:
-                nst = min(nst, 150)
-            if opts.get("com") == "boost":
-                nst = min(nst, 1000)      # |x| grows with t: the force loses eps*|x|/|dx| per step, the bound is calibrated for bounded |x|
-            cfgh[str(fc_class(G)[:4])] = cfgh.get(str(fc_class(G)[:4]), 0) + 1
-            d0, d1, d2 = roundtrip(R, G, parts, variant, dt, nst, opts)
-            n = len(d0) // 6                       # variational particles included
-            e = relerr(d0, d2, n)
-            travelled = relerr(d0, d1, n)
-            for cond, nm in ((opts.get("safe") == 0, "safe_mode = 0, synchronize only at the turning point"), (opts.get("turn") == "restore", "restore at the turning point"),
-                             (opts.get("dtfac") is not None, "dt changed by the user mid-run"), (opts.get("com") == "boost", "COM offset + boost (no move_to_com)"),
-                             (G["nactive"] != -1, "massless test particles"), (bool(G["cb"]), "callbacks pre/post"), (G["k"] != 0, "additional force, velocity independent"),
-                             (opts.get("var", False), "variational particles with non-zero data"), (dt < 0, "dt < 0 first"), (G0 != 1.0, "G != 1")):
-                if cond:
-                    dim("sym: " + nm)
-            name = "-".join(str(v) for v in variant)
-            worst[name] = max(worst.get(name, 0.0), e)
-            fam = "moderate" if moderate else "calm"
-            worst_fam[fam] = max(worst_fam.get(fam, 0.0), e)
-            c.count((name, n, min(3, int(math.log10(nst)))) + fc_class(G), nontrivial=travelled > 1e-3)
-            rep_d = dict(integrator=variant[0], variant=list(variant), G=G0, fc=G, opts=opts, dt=dt, nsteps=nst, particles=parts, error=e,
-                         procedure="add particles; configure (opts: safe_mode, restore at the turning point, dt change mid-run, COM boost, variational particle); (move_to_com); nsteps; synchronize; sim.dt=-sim.dt; nsteps; synchronize; relative max-norm difference to the start")
-            TOL = tol_for(nst)
-            if not e <= TOL:
-                c.violation("%s-roundtrip" % name, "%s%s: %d steps forward and back return to the start only to %.2e (bound %.0e)" % (name, (" " + json.dumps(opts)) if opts else "", nst, e, TOL), rep_d)
-            elif e > 20 * nst ** 1.5 * 1.1e-16:
-                # dt-halving discriminator, for errors above the rounding level expected for this n
-                # (calibration: clean-tree errors stay below 4 n^1.5 eps) but below the bound: the reversal
-                # defect of a non-symmetric scheme is a power of dt, rounding is not.  Same time span with
-                # dt/2 and dt/4; a hit must repeat on a perturbed copy of the system (rounding noise does not).
-                disc += 1
+    for f in cases:
+        P = build_sym_case(rng, f, nmax)
+        variant, nst, dt, G = tuple(P["variant"]), P["nst"], P["dt"], P["G"]
+        d0, d1, d2 = sym_run(R, P)
+        n = len(d0) // 6                       # variational particles included
+        e = relerr(d0, d2, n)
+        travelled = relerr(d0, d1, n)
+        cov.add(f)
+        name = f["scheme"]
+        worst[name] = max(worst.get(name, 0.0), e)
+        worst_fam[f["fam"]] = max(worst_fam.get(f["fam"], 0.0), e)
+        c.count(("sym",) + tuple(f[k] for k in F.names), nontrivial=travelled > 1e-3)
+        evs = (f["evA"], f["evB"])
+        for cond, nm in ((f["safe"] == "0", "safe_mode = 0, synchronize only at the turning point"), (f["turn"] == "restore" or "save" in evs, "restore at the turning point"),
+                         ("dt" in evs, "dt changed by the user mid-run"), (f["com"] == "boost", "COM offset + boost (no move_to_com)"),
+                         (f["roles"] != "all", "massless test particles"), (f["cb"] != "none", "callbacks pre/post"), (f["force"] == "k", "additional force, velocity independent"),
+                         (P["var"], "variational particles with non-zero data"), (dt < 0, "dt < 0 first"), (f["G"] != "1", "G != 1"),
+                         (f["turn"] == "flag" or "flag" in evs, "documented recalculation flag set by the user")):
+            if cond:
+                dim("sym: " + nm)
+        tag = " ".join("%s=%s" % (k, f[k]) for k in F.names[1:] if f[k] not in ("none", "sync", "all", "1", "moved", "no", "+", "calm_short"))
+        rep_d = dict(integrator=variant[0], variant=list(variant), case=P, factors=f, G=G, dt=dt, nsteps=nst, particles=P["parts"], error=e,
+                     procedure="add particles; configure per `factors`; forward leg with the two adjacent events; synchronize; turning point; mirrored backward leg; synchronize; "
+                               "relative max-norm difference to the start")
+        TOL = tol_for(nst)
+        if not e <= TOL:
+            c.violation("%s-roundtrip" % name, "%s (%s): %d steps forward and back return to the start only to %.2e (bound %.0e)" % (name, tag, nst, e, TOL), rep_d)
+        elif e > 20 * nst ** 1.5 * 1.1e-16:
+            # dt-halving discriminator, for errors above the rounding level expected for this n (calibration: clean-tree errors
+            # stay below 4 n^1.5 eps) but below the bound: the reversal defect of a non-symmetric scheme is a power of dt, rounding
+            # is not.  Same time span with dt/2 and dt/4; a hit must repeat on a perturbed copy (rounding noise does not).
+            disc += 1
 
-                def scaling(pp):
-                    es = [relerr(*[roundtrip(R, G, pp, variant, dt / k, k * nst, opts)[i] for i in (0, 2)], n) for k in (1, 2, 4)]
-                    return es, (es[0] > 1.7 * es[1] and es[1] > 1.7 * es[2] and es[0] > 5 * es[2])
-                es, hit = scaling(parts)
-                if hit:
-                    parts2 = [[p[0]] + [v * (1 + 1e-9 * (i + 1)) for v in p[1:]] for i, p in enumerate(parts)]
-                    es2, hit2 = scaling(parts2)
-                    if hit2 and es2[0] > 20 * nst ** 1.5 * 1.1e-16:
-                        c.violation("%s-roundtrip-dt-scaling" % name,
-                                    "%s: reversal error falls with the step like a truncation error (dt %.2e, dt/2 %.2e, dt/4 %.2e), not like rounding" % (name, es[0], es[1], es[2]),
-                                    dict(rep_d, errors_dt_dt2_dt4=es, errors_perturbed_copy=es2))
+            def scaling(pp):
+                es = []
+                for k in (1, 2, 4):
+                    r0, _, r2 = sym_run(R, dict(P, parts=pp), dtdiv=k)
+                    es.append(relerr(r0, r2, n))
+                return es, (es[0] > 1.7 * es[1] and es[1] > 1.7 * es[2] and es[0] > 5 * es[2])
+            es, hit = scaling(P["parts"])
+            if hit:
+                parts2 = [[p[0]] + [v * (1 + 1e-9 * (i + 1)) for v in p[1:]] for i, p in enumerate(P["parts"])]
+                es2, hit2 = scaling(parts2)
+                if hit2 and es2[0] > 20 * nst ** 1.5 * 1.1e-16:
+                    c.violation("%s-roundtrip-dt-scaling" % name,
+                                "%s (%s): reversal error falls with the step like a truncation error (dt %.2e, dt/2 %.2e, dt/4 %.2e), not like rounding" % (name, tag, es[0], es[1], es[2]),
+                                dict(rep_d, errors_dt_dt2_dt4=es, errors_perturbed_copy=es2))
+    rep = cov.report()
+    rep["excluded_reasons"] = CV.excluded_table(F)
+    rep["cases"] = len(cases)
+    rep["array_size"] = len(arr)
+    PAIRS["symmetric-scheme round trips"] = rep
     search_sei(c, R, rng, worst)
     c.cov["worst_roundtrip_error_by_scheme"] = {k: float("%.3g" % v) for k, v in sorted(worst.items())}
     c.cov["worst_roundtrip_error_by_family"] = {k: float("%.3g" % v) for k, v in sorted(worst_fam.items())}
     c.cov["dt_halving_discriminator_runs"] = disc
-    c.cov["symmetric_roundtrips_by_configuration(test_particles,testparticle_type,additional_force,callbacks)"] = cfgh
 
 
-def sei_roundtrip(R, om, omz, fc, parts, dt, nst, opts):
-    """opts: dtfac (dt changed mid-run), turn='restore', shear=L (shear-periodic box of size L; particles get the
-    Keplerian shear -1.5 OMEGA x added so they stream across the box)"""
-    s = sei_sim(R, om, omz, fc, parts)
-    if opts.get("shear"):
-        s.configure_box(opts["shear"])
+SEI_FACTORS = dict(evA=["none", "sync", "dt", "save"], evB=["none", "sync", "dt", "save"], turn=["plain", "restore"], omz=["same", "differs"], sign=["+", "-"],
+                   roles=["all", "tp0_massless", "tp1_massless"], cb=["none", "pre", "post"], box=["none", "shear", "shear+ghost"], ncls=["50", "200", "long"])
+SEI_EXCLUDED = [("box", ["shear", "shear+ghost"], "ncls", "long", "cost; 200 steps are several shear times already")]
+
+
+def sei_run(R, P):
+    s = sei_sim(R, P["om"], P["omz"], P["fc"], P["parts"])
+    if P["box"]:
+        s.configure_box(P["box"])
         s.boundary = "shear"
-        s.N_ghost_x = s.N_ghost_y = opts.get("ghost", 0)
+        s.N_ghost_x = s.N_ghost_y = P["ghost"]
     d0 = R.doubles(s)
-    fwd = [(dt, nst)] if opts.get("dtfac") is None else [(dt, nst - nst // 2), (dt * opts["dtfac"], nst // 2)]
-    for d, n in fwd:
-        s.dt = d
-        s.steps(n)
+    segs = []
+
+    def fwd(s, n):
+        if n > 0:
+            segs.append((s.dt, n))
+            s.steps(n)
+        return s
+
+    def event(s, ev, k):
+        if ev == "sync":
+            s.synchronize()
+            s.energy()
+        elif ev == "dt":
+            s.dt = s.dt * P["dtfacs"][k]
+        elif ev == "save":
+            s = reload_sim(R, s, "save")
+        return s
+    nst = P["nst"]
+    s.dt = P["dt"]
+    if P["evA"] == "none" and P["evB"] == "none":
+        s = fwd(s, nst)
+    else:
+        na = max(1, (nst - 1) // 2)
+        s = fwd(s, na)
+        s = event(s, P["evA"], 0)
+        s = fwd(s, 1)
+        s = event(s, P["evB"], 1)
+        s = fwd(s, nst - 1 - na)
     d1 = R.doubles(s)
     tmid = s.t
-    if opts.get("turn") == "restore":
+    if P["turn"] == "restore":
         s = reload_sim(R, s, "save")
-    for d, n in reversed(fwd):
-        s.dt = -d if opts.get("dtfac") is not None else -s.dt
-        s.steps(n)
+    if len({d for d, _ in segs}) == 1:
+        s.dt = -s.dt
+        s.steps(sum(n for _, n in segs))
+    else:
+        for d, n in reversed(segs):
+            s.dt = -d
+            s.steps(n)
     return d0, d1, R.doubles(s), tmid
 
 
+def build_sei_case(rng, f, nmax, selfgravity_in_box=False):
+    n = rng.randint(2, 8)
+    om, omz, G, parts = gen_sheet(rng, n, omz_differs=(f["omz"] == "differs"))
+    box, ghost = None, 0
+    if f["box"] != "none":
+        box = rng.uniform(3.0, 6.0)
+        ghost = 1 if f["box"].endswith("ghost") else 0
+        for q in parts:
+            q[1], q[2] = rng.uniform(-box / 2, box / 2), rng.uniform(-box / 2, box / 2)
+            q[5] += -1.5 * om * q[1]
+        G = (G or 1e-6) if selfgravity_in_box else 0.0
+    fc = mkfc(G)
+    if f["roles"] != "all" and n >= 2:
+        fc["nactive"] = rng.randint(1, n - 1)
+        fc["tptype"] = int(f["roles"][2])
+        for p in parts[fc["nactive"]:]:
+            p[0] = 0.0
+    fc["cb"] = tuple(x for x in [f["cb"]] if x != "none")
+    dt = (2 * math.pi / om) / rng.choice([20, 50, 200]) * (1 if f["sign"] == "+" else -1)
+    nst = {"50": 50, "200": 200, "long": nmax}[f["ncls"]]
+    if box:
+        dt = (2 * math.pi / om) / rng.choice([20, 50]) * (1 if dt > 0 else -1)
+        nst = 200                 # several shear times: every particle streams through the box
+    return dict(om=om, omz=omz, fc=fc, parts=parts, dt=dt, nst=nst, evA=f["evA"], evB=f["evB"], turn=f["turn"], box=box, ghost=ghost,
+                dtfacs=[rng.choice([0.5, 0.7, 1.5, -0.8]), rng.choice([0.8, 1.25])], n=n, G=G)
+
+
 def search_sei(c, R, rng, worst):
-    reps = 40 if c.thorough else 20
+    import c10_cover as CV
     nmax = 10000 if c.thorough else 1000
+    F = CV.Factors(SEI_FACTORS, SEI_EXCLUDED, ["evA", "evB", "turn", "box", "roles"])
+    arr, stuck = CV.covering_array(F, rng.fork(), with_triples=c.thorough, ncand=20)
+    cov = CV.Coverage(F, with_triples=c.thorough, implied_excluded=stuck)
     shear_g = []
-    for rep in range(reps):
-        n = rng.randint(2, 8)
-        om, omz, G, parts = gen_sheet(rng, n, omz_differs=(rep % 2 == 1))
-        opts = {}
-        kind = rep % 5
-        if kind == 1:
-            opts["dtfac"] = rng.choice([0.5, 0.7, 1.5, -0.8])
-        elif kind == 2:
-            opts["turn"] = "restore"
-        elif kind in (3, 4):
-            # shear-periodic box; kind 3 without self-gravity (asserted), kind 4 with (evidence only, see below)
-            L = rng.uniform(3.0, 6.0)
-            opts["shear"] = L
-            opts["ghost"] = rng.randint(0, 1)
-            for q in parts:
-                q[1], q[2] = rng.uniform(-L / 2, L / 2), rng.uniform(-L / 2, L / 2)
-                q[5] += -1.5 * om * q[1]
-            if kind == 3:
-                G = 0.0
-            else:
-                G = G or 1e-6
-        fc = gen_fc_sym(rng, G, parts, ("leapfrog",)) if (rng.chance(0.5) and not opts.get("shear") and opts.get("turn") != "restore") else mkfc(G)
-        fc["k"] = 0.0     # a harmonic force on top of Hill's equations is linearly unstable (e-folding within the run): not a test of the integrator
-        dt = (2 * math.pi / om) / rng.choice([20, 50, 200]) * (1 if rng.chance(0.7) else -1)
-        nst = rng.choice([50, 200, nmax])
-        if fc["k"] != 0:
-            nst = min(nst, 200)
-        if opts.get("shear"):
-            dt = (2 * math.pi / om) / rng.choice([20, 50]) * (1 if dt > 0 else -1)
-            nst = 200                 # several shear times: every particle streams through the box
-        d0, d1, d2, tmid = sei_roundtrip(R, om, omz, fc, parts, dt, nst, opts)
+    for f in arr:
+        P = build_sei_case(rng, f, nmax)
+        n, nst, om = P["n"], P["nst"], P["om"]
+        d0, d1, d2, tmid = sei_run(R, P)
         e = relerr(d0, d2, n)
-        if opts.get("shear") and kind == 4:
-            # Wrapping happens after the step in both directions; with self-gravity summed over a finite set of ghost
-            # boxes the step does not commute with the wrap, so the round trip closes only to ~G m/L^2 dt^2: outside
-            # the property ("rounding error") — measured, not asserted.
-            shear_g.append(e)
-            c.count(None, nontrivial=False)
-            continue
+        cov.add(f)
         worst["sei"] = max(worst.get("sei", 0.0), e)
-        crossed = bool(opts.get("shear")) and abs(tmid) * 1.5 * om * max(abs(q[1]) for q in parts) > opts["shear"]
-        c.count(("sei", n, om, min(3, int(math.log10(nst))), tuple(sorted(opts))), nontrivial=relerr(d0, d1, n) > 1e-3)
-        for cond, nm in ((opts.get("dtfac") is not None, "dt changed by the user mid-run"), (opts.get("turn") == "restore", "restore at the turning point"),
-                         (crossed, "shear boundary crossed, no self-gravity"), (omz != om, "OMEGAZ != OMEGA")):
+        crossed = bool(P["box"]) and abs(tmid) * 1.5 * om * max(abs(q[1]) for q in P["parts"]) > P["box"]
+        c.count(("sei",) + tuple(f[k] for k in F.names), nontrivial=relerr(d0, d1, n) > 1e-3)
+        evs = (f["evA"], f["evB"])
+        for cond, nm in (("dt" in evs, "dt changed by the user mid-run"), (f["turn"] == "restore" or "save" in evs, "restore at the turning point"),
+                         (crossed, "shear boundary crossed, no self-gravity"), (P["omz"] != om, "OMEGAZ != OMEGA")):
             if cond:
                 dim("sei: " + nm)
         TOL = tol_for(nst)
         if not e <= TOL:
-            c.violation("sei-roundtrip", "SEI%s: %d steps forward and back return to the start only to %.2e (bound %.0e)" % ((" " + json.dumps(opts)) if opts else "", nst, e, TOL),
-                        dict(integrator="sei", OMEGA=om, OMEGAZ=omz, G=G, fc=fc, opts=opts, dt=dt, nsteps=nst, particles=parts, error=e))
+            tag = " ".join("%s=%s" % (k, f[k]) for k in F.names if f[k] not in ("none", "plain", "same", "all"))
+            c.violation("sei-roundtrip", "SEI (%s): %d steps forward and back return to the start only to %.2e (bound %.0e)" % (tag, nst, e, TOL),
+                        dict(integrator="sei", case=P, factors=f, OMEGA=om, OMEGAZ=P["omz"], G=P["G"], fc=P["fc"], dt=P["dt"], nsteps=nst, particles=P["parts"], error=e))
+    # shear-periodic box WITH self-gravity: wrapping happens after the step in both directions; with a force summed over a finite
+    # set of ghost boxes the step does not commute with the wrap, so the round trip closes only to ~G m/L^2 dt^2: outside the
+    # property ("rounding error") — measured, not asserted.
+    for k in range(4 if c.thorough else 2):
+        f = dict(evA="none", evB="none", turn="plain", omz="same", sign="+", roles="all", cb="none", box=("shear+ghost" if k % 2 else "shear"), ncls="200")
+        P = build_sei_case(rng, f, nmax, selfgravity_in_box=True)
+        d0, d1, d2, _ = sei_run(R, P)
+        shear_g.append(relerr(d0, d2, P["n"]))
+        c.count(None, nontrivial=False)
     c.cov["sei_shear_box_with_self_gravity_roundtrip_error(measured, not asserted)"] = [float("%.2g" % v) for v in shear_g]
+    rep = cov.report()
+    rep["excluded_reasons"] = CV.excluded_table(F)
+    rep["cases"] = len(arr)
+    PAIRS["sei round trips"] = rep
 
 
 def replay(path):
@@ -1562,12 +2031,16 @@ def replay(path):
     G = rp.get("fc") or mkfc(rp.get("G", 1.0))        # the whole force / callback configuration
     G["cb"] = tuple(G["cb"])
     if rp["integrator"] == "janus":
-        o = janus_roundtrip(R, rp["order"], rp["scale_pos"], rp["scale_vel"], G, parts, dt, nst, rp.get("mode", "steps"), dt2=rp.get("dt2"), t0=rp.get("t0"))
+        P = rp["case"]
+        P["fc"]["cb"] = tuple(P["fc"]["cb"])
+        o = janus_run(R, P)
         ok = o["i2"] == o["i0"] and o["d2"] == o["d0"] and not o["flag_bad"] and not o["sim"]._c10["probe_bad"]
         print("JANUS order %d, %d steps there and back: %s (flag not clear at %d boundaries, %d stale positions at force evaluations)"
               % (rp["order"], nst, "exact" if (o["i2"] == o["i0"] and o["d2"] == o["d0"]) else "NOT exact", o["flag_bad"], o["sim"]._c10["probe_bad"]))
     elif rp["integrator"] == "sei":
-        d0, _, d2, _ = sei_roundtrip(R, rp["OMEGA"], rp["OMEGAZ"], G, parts, dt, nst, rp.get("opts") or {})
+        P = rp["case"]
+        P["fc"]["cb"] = tuple(P["fc"]["cb"])
+        d0, _, d2, _ = sei_run(R, P)
         e = relerr(d0, d2, len(parts))
         ok = e <= tol_for(nst)
         print("SEI %d steps there and back: error %.3e (bound %.1e)" % (nst, e, tol_for(nst)))
@@ -1592,11 +2065,14 @@ def replay(path):
         ok = e <= rp["bound"]
         print("%s %d steps there and back: error %.3e (bound %.1e)" % ("-".join(map(str, variant)), nst, e, rp["bound"]))
     else:
-        variant = tuple(rp["variant"])
-        rts = [roundtrip(R, G, parts, variant, dt / k, k * nst, rp.get("opts")) for k in (1, 2, 4)]
-        es = [relerr(rt[0], rt[2], len(rt[0]) // 6) for rt in rts]
+        P = rp["case"]
+        P["fc"]["cb"] = tuple(P["fc"]["cb"])
+        es = []
+        for k in (1, 2, 4):
+            r0, _, r2 = sym_run(R, P, dtdiv=k)
+            es.append(relerr(r0, r2, len(r0) // 6))
         ok = es[0] <= tol_for(nst) and not (es[0] > 20 * nst ** 1.5 * 1.1e-16 and es[0] > 1.7 * es[1] and es[1] > 1.7 * es[2] and es[0] > 5 * es[2])
-        print("%s %d steps there and back: error %.3e (bound %.1e); with dt/2, dt/4: %.3e %.3e" % ("-".join(map(str, variant)), nst, es[0], tol_for(nst), es[1], es[2]))
+        print("%s %d steps there and back: error %.3e (bound %.1e); with dt/2, dt/4: %.3e %.3e" % (vname(rp["variant"]), nst, es[0], tol_for(nst), es[1], es[2]))
     print("replay:", "property holds on this input" if ok else "STILL FAILING")
     sys.stdout.flush()
     os._exit(0 if ok else 1)
